@@ -1,0 +1,45 @@
+//go:build verif
+
+// Verification-only exports for property C22 (ALPS). Add-only, compiled only with tag `verif`.
+
+package tls
+
+// VerifClientEEMarshal runs (*utlsClientEncryptedExtensionsMsg).marshal on a message with the
+// given fields.
+func VerifClientEEMarshal(codepoint uint16, settings, custom []byte) ([]byte, error) {
+	m := &utlsClientEncryptedExtensionsMsg{
+		applicationSettingsCodepoint: codepoint,
+		applicationSettings:          settings,
+		customExtension:              custom,
+	}
+	return m.marshal()
+}
+
+// VerifClientEEUnmarshal runs (*utlsClientEncryptedExtensionsMsg).unmarshal.
+func VerifClientEEUnmarshal(data []byte) (ok bool, codepoint uint16, settings []byte) {
+	m := new(utlsClientEncryptedExtensionsMsg)
+	ok = m.unmarshal(data)
+	return ok, m.applicationSettingsCodepoint, m.applicationSettings
+}
+
+// VerifServerEE is the client's view of a parsed server EncryptedExtensions message.
+type VerifServerEE struct {
+	ALPN      string
+	QUICTP    []byte
+	HasQUICTP bool
+	EarlyData bool
+	ECHRetry  []byte
+	ALPS      []byte
+	ALPSCode  uint16
+}
+
+// VerifServerEEUnmarshal runs (*encryptedExtensionsMsg).unmarshal (incl. its uTLS section).
+func VerifServerEEUnmarshal(data []byte) (bool, VerifServerEE) {
+	m := new(encryptedExtensionsMsg)
+	ok := m.unmarshal(data)
+	return ok, VerifServerEE{
+		ALPN: m.alpnProtocol, QUICTP: m.quicTransportParameters, HasQUICTP: m.quicTransportParameters != nil,
+		EarlyData: m.earlyData, ECHRetry: m.echRetryConfigs,
+		ALPS: m.utls.applicationSettings, ALPSCode: m.utls.applicationSettingsCodepoint,
+	}
+}
